@@ -232,6 +232,13 @@ func vfRunScen(c vfScenCase) *vfScenOut {
 			if err != nil {
 				return nil, fmt.Sprintf("finished recording %s does not decode: %v", n, err)
 			}
+			// every recording, of whatever kind, carries the motion configuration in force for this camera
+			mcText := f.R.MotionConfig()
+			for _, want := range []string{fmt.Sprintf("triggerframes: %d\n", sc.Trigger), fmt.Sprintf("edgepixels: %d\n", sc.Edge), "deltathresh: 50\n", "countthresh: 1\n", "tempthresh: 1000\n"} {
+				if !strings.Contains(mcText, want) {
+					return nil, fmt.Sprintf("recording %s in %s: the motion configuration in its header lacks %q (the settings in force for this connection); header text: %q", n, filepath.Base(d), strings.TrimSpace(want), mcText)
+				}
+			}
 			var l []int
 			for k, fr := range f.Frames {
 				if k > 0 {
